@@ -4,8 +4,10 @@
      vm      entries=[[namehex,val,pad,unit]…] zones=null|[["low",indent,pad,v]|["other",indent,bodyhex]…]
              pagesize=n      → rendered files + model(rendered text) + spec(abstract maps)
      vmraw   meminfo=hex zoneinfo=hex|null pagesize=n          → model only (malformed text)
-     swap    entries=… sysinfo=[total,free,unit] vmstat=null|[[namehex,val]…]
-     swapraw meminfo=hex sysinfo=[…] vmstat=hex|null           → model only
+     swap    entries=… sysinfo=[…7 members…] vmstat=null|[[namehex,val]…] pagesize=n
+             → model = swap_memory() in a process whose PAGESIZE is n (`cfgAt n`); spec = bytes =
+               pages × n; `codepage` = bytes per page the code uses (4096, or n once it says PAGESIZE)
+     swapraw meminfo=hex sysinfo=[…] vmstat=hex|null pagesize=n  → model only
      sysinfo = the seven members of `struct sysinfo` in the kernel's order
                [totalram, freeram, bufferram, sharedram, totalswap, freeswap, mem_unit]; the driver
                lays them out as arch/linux/mem.c does and unpacks them as swap_memory() does
@@ -123,18 +125,21 @@ def handle (_ : Unit) (j : Json) : R (Unit × Json) := do
     let es ← listF asEntry j "entries"
     let (sc, sys) ← field j "sysinfo" >>= asSysinfo
     let vs ← optF (asList asVLine) j "vmstat"
+    let ps ← natF j "pagesize"
     let meminfo := Spec.renderMeminfo es
     let vmstat := vs.map Spec.renderVmstat
-    let model := swapMemory cfg meminfo sys vmstat
+    let model := swapMemory (cfgAt ps) meminfo sys vmstat
     let spec := Spec.swap (Spec.MemInfo.ofEntries es) (sc.totalswap * sc.mem_unit)
-      (sc.freeswap * sc.mem_unit) (vs.map Spec.vmstatGet)
+      (sc.freeswap * sc.mem_unit) ps (vs.map Spec.vmstatGet)
     return ((), jObj [("meminfo", jBytes meminfo), ("vmstat", jOpt jBytes vmstat),
-                      ("model", jSwapModel model), ("spec", jSwapSpec spec)])
+                      ("model", jSwapModel model), ("spec", jSwapSpec spec),
+                      ("codepage", jNat (if swapPages then ps else 4096))])
   else if op == "swapraw" then
     let meminfo ← bytesF j "meminfo"
     let (_, sys) ← field j "sysinfo" >>= asSysinfo
     let vmstat ← optF asBytes j "vmstat"
-    return ((), jObj [("model", jSwapModel (swapMemory cfg meminfo sys vmstat)), ("spec", Json.null),
+    let ps ← natF j "pagesize"
+    return ((), jObj [("model", jSwapModel (swapMemory (cfgAt ps) meminfo sys vmstat)), ("spec", Json.null),
                       ("fail", jFail (meminfoFail meminfo))])
   else if op == "phymem" then
     let es1 ← listF asEntry j "entries1"
